@@ -579,7 +579,7 @@ func init() {
 	}
 	register(&Prop{
 		ID: "C10",
-		Rule: "every exported function and method of package otp (listed at run time with go/parser over /repo; Must* helpers excluded as the property says) is called with hostile arguments: all 256 digit and hash values, period/skew/counter extremes, instants from year 1 to year 292277026596, strings incl. invalid UTF-8 and 64 KiB, nil/empty/64 KiB byte fields, arbitrary SuiteConfig/OCRAInput combinations, parsed and hand-built URLs and nil; calls run in child processes (plain, -race/checkptr, thorough also -asan), each logged before it is issued, under recover() and with a derivation cut-off; " +
+		Rule: "every exported function and method of package otp (listed at run time with go/parser over /repo; Must* helpers excluded as the property says) is called with hostile arguments: all 256 digit and hash values, period/skew/counter extremes, instants from year 1 to year 292277026596, strings incl. invalid UTF-8 and 64 KiB, nil/empty/64 KiB byte fields, arbitrary SuiteConfig/OCRAInput combinations, parsed and hand-built URLs and nil; string arguments of one call are often derived from each other (other letter case incl. length-changing mappings, prefix:, suffix, doubled); the exported default TimeCounterFunc and the operations that exist only in the js/wasm build (DeriveRFC4226Wasm, ValidateOTPWasm; compiled natively through an overlay, digits -2^63..2^16) are driven too; calls run in child processes (plain, -race/checkptr, thorough also -asan), each logged before it is issued, under recover() and with a derivation cut-off; " +
 			"distinct_nontrivial counts distinct (operation, arguments) calls that returned or panicked under observation",
 		Run: func(c *Ctx) {
 			r := c.R
